@@ -343,6 +343,7 @@ type RawCase struct {
 	Saga  *SagaCfg    `json:"saga,omitempty"`
 	Num   *NumericCfg `json:"numeric,omitempty"`
 	Comp  *CompCfg    `json:"comp,omitempty"`
+	ErrFlow *ErrFlowCfg `json:"errflow,omitempty"`
 	Out   string      `json:"out,omitempty"`
 	Panic string      `json:"panic,omitempty"`
 }
@@ -353,6 +354,7 @@ type gen struct {
 	w    *CaseWriter
 	ow   *CaseWriter // option-matrix cases (CorrCfg.ocase)
 	sw   *CaseWriter // SAGA cases (CorrCfg.sagacase)
+	ew   *CaseWriter // error-flow cases (CorrErrFlow.ecase)
 	noTransPanics bool
 	tol  *tolWriter
 	rng  *Rng
@@ -696,6 +698,9 @@ func corr(o Opts) {
 	g.sw = NewCaseWriter(o.Out, "sagacases", oheader, "sagamism", 200)
 	g.sw.Type = "sagacase"
 	g.sw.Rule = "a SAGA case is non-trivial iff the pool has >= 2 threads"
+	g.ew = NewCaseWriter(o.Out, "ecases", eheader, "emism", 60)
+	g.ew.Type = "ecase"
+	g.ew.Rule = "an error-flow case is non-trivial iff a failure is injected (mode != none)"
 	var ntp string
 	g.noTransPanics, ntp = bwNoTransPanics()
 	g.ow.Extra["bw_no_transitions_panics"] = map[string]interface{}{"panics": g.noTransPanics, "message": ntp}
@@ -719,6 +724,7 @@ func corr(o Opts) {
 	if unit < 1 {
 		unit = 1
 	}
+	efi := 0
 	for i := 0; i < unit; i++ {
 		g.emCases(genEm(r.Split()), 2)
 		g.bwCases(genBw(r.Split()), 2)
@@ -736,6 +742,10 @@ func corr(o Opts) {
 		g.numericCases(genNumeric(r.Split()))
 		g.compCases(genComp(r.Split()))
 		g.compCases(genComp(r.Split()))
+		for j := 0; j < 4; j++ {
+			g.errFlowCases(genErrFlow(r.Split(), efi))
+			efi++
+		}
 	}
 	g.chunkCases(r.Split(), 3*unit)
 	w.Extra["threads_observed"] = map[string]int{"parallel_steps": g.runs, "thread0_used": g.used0, "thread0_never_used": g.unused0, "some_worker_never_used": g.unusedAny}
@@ -750,6 +760,9 @@ func corr(o Opts) {
 		Die("flush: %v", err)
 	}
 	if err := g.sw.Flush(); err != nil {
+		Die("flush: %v", err)
+	}
+	if err := g.ew.Flush(); err != nil {
 		Die("flush: %v", err)
 	}
 }
@@ -768,6 +781,8 @@ func (g *gen) replayInto(rc *RawCase) {
 		g.numericCases(rc.Num)
 	case rc.Comp != nil:
 		g.compCases(rc.Comp)
+	case rc.ErrFlow != nil:
+		g.errFlowCases(rc.ErrFlow)
 	case rc.Em != nil && rc.Em.FailAt < 0:
 		g.emCases(rc.Em, 1)
 	case rc.Bw != nil && rc.Bw.FailRec < 0:
@@ -798,6 +813,8 @@ func main() {
 		tpProbeMain(o)
 	case o.Extra == "fresh":
 		freshMain(o)
+	case o.Extra == "errflow":
+		errFlowMain(o)
 	case o.Replay != "":
 		replayMain(o)
 	default:
